@@ -1,4 +1,5 @@
-(* C10 model: one connection of aioslsk (network/connection.py) together with the parts of
+(* C10 model (phase 2: the code WITH the repairs F14, F15, F15b, C10-N1 applied).
+   One connection of aioslsk (network/connection.py) together with the parts of
    Network (network/network.py) that touch it: registry add (creation / accept), registry
    removal on CLOSED, the init-message handler on_peer_accepted, the attempt coroutines
    _make_direct_connection / _handle_connect_to_peer / connect_server.
@@ -17,7 +18,7 @@ Inductive rdr := RNone | RRunning | RBlocked | RDone.   (* RBlocked: reader task
 Inductive pcs := AwaitInit | Established | Negotiating | Transferring.
 Inductive wst := WNone | WOpen | WClosing.
 Inductive ctype := TP | TF | TD.
-Inductive after := ThenRaise | ThenRet.
+Inductive after := ThenRaise | ThenRet | ThenCancel.
 (* where the coroutine that owns the connection attempt / the accept handler is suspended *)
 Inductive att :=
   | ANone                (* no such coroutine alive *)
@@ -26,7 +27,7 @@ Inductive att :=
   | ASending             (* CONNECTED set, init message written, suspended in drain() *)
   | AAwaitInit           (* accept task suspended reading the init message in on_peer_accepted *)
   | AOwnClose (a : after)(* suspended inside its own disconnect() call (wait_closed) *)
-  | ARet.                (* on_peer_accepted has returned: accept() will now run set_state(CONNECTED) *)
+  | ARet.                (* on_peer_accepted has returned (or is about to): accept() ends *)
 Inductive ares := ResNone | ResOk | ResFail | ResCancelled.
 
 Inductive initmsg := IPeerInit (t : ctype) | IPierceKnown | IPierceUnknown | IOther
@@ -44,7 +45,8 @@ Inductive event :=
   | Disconnect (r : reason)      (* first segment of disconnect(): guard, CLOSING, writer.close() *)
   | CloseDone                    (* second segment: wait_closed returned / timed out: CLOSED *)
   | ReaderGets (x : rx)
-  | Send (m : smode).
+  | Send (m : smode)
+  | QSend (m : smode).           (* queue_message: send_message in its own task, which disconnect() cancels *)
 
 Record conn := mk {
   kd : kind; ty : ctype;
@@ -61,15 +63,11 @@ Record conn := mk {
   viol : bool;               (* some report did not move forward *)
   twice : bool;              (* CLOSED reported a second time, or something reported after CLOSED (non-server) *)
   bad_deliv : nat;           (* deliveries after CLOSED (non-server) *)
-  bad_sent : nat;            (* writes after CLOSED (non-server) *)
-  late_accept : bool;        (* F14: accept() set CONNECTED on a closing/closed connection *)
-  late_connect : bool;       (* connect() set CONNECTED on a connection closed meanwhile *)
-  race_dc : bool;            (* an effective disconnect() ran while the attempt was in open_connection *)
-  abandoned : bool           (* F15: attempt cancelled in open_connection, connection left CONNECTING *)
+  bad_sent : nat             (* writes after CLOSED (non-server) *)
 }.
 
 Definition init (k : kind) (t : ctype) : conn :=
-  mk k t UNINIT [] false RNone AwaitInit WNone ANone ResNone 0 0 0 false false false 0 0 false false false false.
+  mk k t UNINIT [] false RNone AwaitInit WNone ANone ResNone 0 0 0 false false false 0 0.
 
 Definition rank (s : cst) : nat :=
   match s with UNINIT => 0 | CONNECTING => 1 | CONNECTED => 2 | CLOSING => 3 | CLOSED => 4 end.
@@ -90,36 +88,32 @@ Definition report (s : cst) (c : conn) : conn :=
      (seen_closed c || cst_eqb s CLOSED)
      (viol c || negb (ok_next (kd c) (st c) s))
      (twice c || (negb (is_server (kd c)) && seen_closed c))
-     (bad_deliv c) (bad_sent c) (late_accept c) (late_connect c) (race_dc c) (abandoned c).
+     (bad_deliv c) (bad_sent c).
 
 Definition set_reader r c := mk (kd c) (ty c) (st c) (rep c) (in_reg c) r (pc c) (writer c) (at_ c) (res c) (closers c)
-  (delivered c) (sent c) (seen_closed c) (viol c) (twice c) (bad_deliv c) (bad_sent c) (late_accept c) (late_connect c) (race_dc c) (abandoned c).
+  (delivered c) (sent c) (seen_closed c) (viol c) (twice c) (bad_deliv c) (bad_sent c).
 Definition set_pc p c := mk (kd c) (ty c) (st c) (rep c) (in_reg c) (reader c) p (writer c) (at_ c) (res c) (closers c)
-  (delivered c) (sent c) (seen_closed c) (viol c) (twice c) (bad_deliv c) (bad_sent c) (late_accept c) (late_connect c) (race_dc c) (abandoned c).
+  (delivered c) (sent c) (seen_closed c) (viol c) (twice c) (bad_deliv c) (bad_sent c).
 Definition set_writer w c := mk (kd c) (ty c) (st c) (rep c) (in_reg c) (reader c) (pc c) w (at_ c) (res c) (closers c)
-  (delivered c) (sent c) (seen_closed c) (viol c) (twice c) (bad_deliv c) (bad_sent c) (late_accept c) (late_connect c) (race_dc c) (abandoned c).
+  (delivered c) (sent c) (seen_closed c) (viol c) (twice c) (bad_deliv c) (bad_sent c).
 Definition set_att a c := mk (kd c) (ty c) (st c) (rep c) (in_reg c) (reader c) (pc c) (writer c) a (res c) (closers c)
-  (delivered c) (sent c) (seen_closed c) (viol c) (twice c) (bad_deliv c) (bad_sent c) (late_accept c) (late_connect c) (race_dc c) (abandoned c).
+  (delivered c) (sent c) (seen_closed c) (viol c) (twice c) (bad_deliv c) (bad_sent c).
 Definition set_res r c := mk (kd c) (ty c) (st c) (rep c) (in_reg c) (reader c) (pc c) (writer c) (at_ c) r (closers c)
-  (delivered c) (sent c) (seen_closed c) (viol c) (twice c) (bad_deliv c) (bad_sent c) (late_accept c) (late_connect c) (race_dc c) (abandoned c).
+  (delivered c) (sent c) (seen_closed c) (viol c) (twice c) (bad_deliv c) (bad_sent c).
 Definition set_closers n c := mk (kd c) (ty c) (st c) (rep c) (in_reg c) (reader c) (pc c) (writer c) (at_ c) (res c) n
-  (delivered c) (sent c) (seen_closed c) (viol c) (twice c) (bad_deliv c) (bad_sent c) (late_accept c) (late_connect c) (race_dc c) (abandoned c).
+  (delivered c) (sent c) (seen_closed c) (viol c) (twice c) (bad_deliv c) (bad_sent c).
 Definition set_reg b c := mk (kd c) (ty c) (st c) (rep c) b (reader c) (pc c) (writer c) (at_ c) (res c) (closers c)
-  (delivered c) (sent c) (seen_closed c) (viol c) (twice c) (bad_deliv c) (bad_sent c) (late_accept c) (late_connect c) (race_dc c) (abandoned c).
+  (delivered c) (sent c) (seen_closed c) (viol c) (twice c) (bad_deliv c) (bad_sent c).
 Definition set_ty t c := mk (kd c) t (st c) (rep c) (in_reg c) (reader c) (pc c) (writer c) (at_ c) (res c) (closers c)
-  (delivered c) (sent c) (seen_closed c) (viol c) (twice c) (bad_deliv c) (bad_sent c) (late_accept c) (late_connect c) (race_dc c) (abandoned c).
+  (delivered c) (sent c) (seen_closed c) (viol c) (twice c) (bad_deliv c) (bad_sent c).
 Definition bump_delivered c := mk (kd c) (ty c) (st c) (rep c) (in_reg c) (reader c) (pc c) (writer c) (at_ c) (res c) (closers c)
   (S (delivered c)) (sent c) (seen_closed c) (viol c) (twice c)
   (if negb (is_server (kd c)) && seen_closed c then S (bad_deliv c) else bad_deliv c)
-  (bad_sent c) (late_accept c) (late_connect c) (race_dc c) (abandoned c).
+  (bad_sent c).
 Definition bump_sent c := mk (kd c) (ty c) (st c) (rep c) (in_reg c) (reader c) (pc c) (writer c) (at_ c) (res c) (closers c)
   (delivered c) (S (sent c)) (seen_closed c) (viol c) (twice c) (bad_deliv c)
   (if negb (is_server (kd c)) && seen_closed c then S (bad_sent c) else bad_sent c)
-  (late_accept c) (late_connect c) (race_dc c) (abandoned c).
-Definition set_ghosts la lc rd ab c := mk (kd c) (ty c) (st c) (rep c) (in_reg c) (reader c) (pc c) (writer c) (at_ c) (res c) (closers c)
-  (delivered c) (sent c) (seen_closed c) (viol c) (twice c) (bad_deliv c) (bad_sent c)
-  (late_accept c || la) (late_connect c || lc) (race_dc c || rd) (abandoned c || ab).
-
+ .
 (* the CLOSED half of disconnect(): set_state(CLOSED); _reader_task = _reader = _writer = None.
    A reader task that is still alive ends at its next loop test (the closed transport fed EOF). *)
 Definition finish_close (c : conn) : conn :=
@@ -168,11 +162,17 @@ Definition step0 (c : conn) (e : event) : conn :=
   | ConnectOk =>
       match at_ c with
       | AConnecting =>
-          let c := set_ghosts false (closing (st c)) false false c in
-          let c := report CONNECTED (set_writer WOpen c) in
-          match kd c with
-          | Server => set_res ResOk (set_att ANone c)
-          | _ => set_att ASending (bump_sent c)       (* send_message(PeerInit / PeerPierceFirewall): written, drain pending *)
+          match st c with
+          | CONNECTING =>
+              let c := report CONNECTED (set_writer WOpen c) in
+              match kd c with
+              | Server => set_res ResOk (set_att ANone c)
+              | _ => set_att ASending (bump_sent c)   (* send_message(PeerInit / PeerPierceFirewall): written, drain pending *)
+              end
+          | _ =>
+              (* (repair C10-N1) the connection was disconnected while connecting: connect() closes the fresh
+                 socket and raises ConnectionFailedError; nothing is reported *)
+              set_res ResFail (set_att ANone c)
           end
       | _ => c
       end
@@ -185,9 +185,11 @@ Definition step0 (c : conn) (e : event) : conn :=
       end
   | Cancel =>
       match at_ c with
-      | AConnecting => set_res ResCancelled (set_att ANone (set_ghosts false false false (negb (closing (st c))) c))
-      | ASending => set_res ResCancelled (set_att ANone c)
-      | AOwnClose ThenRaise =>
+      | AConnecting | ASending =>
+          (* (repairs F15, F15b) connect() / the attempt coroutine catch CancelledError, run disconnect(), re-raise *)
+          let '(c, blocked) := do_disconnect c in
+          if blocked then set_att (AOwnClose ThenCancel) c else set_res ResCancelled (set_att ANone c)
+      | AOwnClose ThenRaise | AOwnClose ThenCancel =>
           (* CancelledError out of wait_closed: the finally clause still runs set_state(CLOSED) *)
           set_res ResCancelled (set_att ANone (set_closers (pred (closers c)) (finish_close c)))
       | _ => c
@@ -211,7 +213,9 @@ Definition step0 (c : conn) (e : event) : conn :=
       end
   | Accept =>
       match kd c, at_ c, st c, rep c, in_reg c with
-      | Incoming, ANone, UNINIT, [], false => set_att AAwaitInit (set_reg true (set_writer WOpen c))
+      | Incoming, ANone, UNINIT, [], false =>
+          (* (repair F14) accept() reports CONNECTED first, then on_peer_accepted registers and reads the init message *)
+          set_att AAwaitInit (set_reg true (report CONNECTED (set_writer WOpen c)))
       | _, _, _, _, _ => c
       end
   | InitRead r =>
@@ -228,19 +232,11 @@ Definition step0 (c : conn) (e : event) : conn :=
       end
   | AcceptReturns =>
       match at_ c with
-      | ARet => set_res ResOk (set_att ANone (report CONNECTED (set_ghosts (closing (st c)) false false false c)))
+      | ARet => set_res ResOk (set_att ANone c)
       | _ => c
       end
   | Disconnect _ =>
-      match at_ c with
-      | a =>
-          let eff := negb (closing (st c)) in
-          let '(c, _) := do_disconnect c in
-          match a with
-          | AConnecting => set_ghosts false false eff false c
-          | _ => c
-          end
-      end
+      fst (do_disconnect c)
   | CloseDone =>
       match closers c with
       | O => c
@@ -248,6 +244,7 @@ Definition step0 (c : conn) (e : event) : conn :=
           let c := set_closers n (finish_close c) in
           match at_ c with
           | AOwnClose ThenRaise => set_res ResFail (set_att ANone c)
+          | AOwnClose ThenCancel => set_res ResCancelled (set_att ANone c)
           | AOwnClose ThenRet => set_att ARet c
           | _ => c
           end
@@ -273,6 +270,22 @@ Definition step0 (c : conn) (e : event) : conn :=
           match m, w with
           | SOk, WOpen => c
           | _, _ => fst (do_disconnect c)         (* write/drain error or timeout: disconnect(WRITE_ERROR/TIMEOUT) *)
+          end
+      end
+  | QSend m =>
+      (* the same in a queued task.  When the write fails, disconnect() runs INSIDE the queued task and its
+         _cancel_queued_messages() cancels that very task: the CancelledError surfaces at wait_closed() and the
+         finally clause reports CLOSED in the same segment (no CloseDone needed) *)
+      if closing (st c) then c
+      else match writer c with
+      | WNone => c
+      | w =>
+          let c := match w with WOpen => bump_sent c | _ => c end in
+          match m, w with
+          | SOk, WOpen => c
+          | _, _ =>
+              let '(c1, blocked) := do_disconnect c in
+              if blocked then set_closers (pred (closers c1)) (finish_close c1) else c1
           end
       end
   end.
@@ -318,7 +331,8 @@ Definition quiescent (c : conn) : bool :=
 (* "open, or being opened by a still-running attempt" *)
 Definition should_be_registered (c : conn) : bool :=
   negb (is_server (kd c)) &&
-  (match writer c with WOpen => true | _ => false end || match at_ c with AConnecting => true | _ => false end).
+  (match writer c with WOpen => true | _ => false end ||
+   match at_ c, st c with AConnecting, CONNECTING => true | _, _ => false end).
 
 (* ---------------- actions of the correspondence harness ---------------- *)
 (* One harness action = the stimulus event followed by the segments that the event loop runs
